@@ -36,6 +36,8 @@ def per_instance(evs):
     """virtual per-instance traces within one execution, in order of first appearance"""
     virt, order = {}, []
     for e in evs:
+        if e["e"] == "mark":
+            continue
         i = e.get("i", 0)
         if i not in virt:
             order.append(i)
